@@ -321,6 +321,62 @@ class Builder:
                         self.tree_insert(ns, l, ("npr_%s_%d" % (rule[:3], ci),), {"k": "lit", "ty": "str", "v": "plain@" + l})
 
 
+DECL_KEYS = [k for k in gen.KEY_POOL if k.isidentifier()]
+DECL_VARS = ["name", "x", "y", "value", "n", "who", "what", "amount"]
+
+
+def add_declare_module(crate, rng):
+    """The inline front-end: a second, small project (strings, templates, subkeys, plurals, references with arguments - what the
+    `declare_locales!` macro accepts) declared inside `mod decl` of the probe crate and observed like the file-based one. The
+    order of the declarations is the (shuffled) order of the generated trees, so references also come after subkey groups."""
+    cfg = GenCfg(p_range=0, p_lit_other=0, p_null=0, p_absent=0.15, p_fk=0.45, p_fk_args=0.5, p_sub=0.3, max_depth=2, p_plural=0.15, n_keys=(7, 11), n_locales=(2, 3),
+                 namespaces=0, p_inherits=0, p_empty_comp=0.0, key_pool=DECL_KEYS, var_pool=DECL_VARS, comp_pool=c01.E2E_COMPS, locale_pool=["en", "fr", "de", "pt-BR", "ja"],
+                 p_surplus=0, p_lit_mix=0)
+    for _ in range(20):
+        p = projects.gen_valid_project(rng, cfg)
+        p["cfg"]["locales"] = gen.effective_locales(p["cfg"])
+        p["cfg"]["locales_dir"] = None
+        ptable = workload.plural_table_for([p])
+        tmp = e2e.ProbeCrate("tmp", p)
+        tmp.next_id = crate.next_id
+        try:
+            c01.add_e2e_observations(tmp, p, ptable, rng, 1, flavours=("td_string", "td"))
+        except model.ModelError:
+            continue
+        if tmp.obs:
+            break
+    else:
+        return
+    surface = gen.Surface(rng)
+
+    def decl(plain, ind):
+        items = []
+        for k, v in plain.items():
+            if isinstance(v, dict):
+                items.append("%s%s: %s" % (ind, k, decl(v, ind + "    ")))
+            elif isinstance(v, str):
+                items.append("%s%s: %s" % (ind, k, e2e.rust_str(v)))
+            else:
+                raise ValueError("value kind not accepted by declare_locales!: %r" % (v,))
+        return "{\n" + ",\n".join(items) + "\n" + ind[:-4] + "}"
+    locales = p["cfg"]["locales"]
+    blocks = []
+    for l in locales:
+        blocks.append("        %s: %s" % (e2e.ident(l), decl(gen.lower_tree(p["data"][(None, l)], surface), "            ")))
+    src = ["pub mod decl {", "    use crate::support::*;", "    use leptos::prelude::*;",
+           "    leptos_i18n::declare_locales! {\n        path: leptos_i18n,\n        interpolate_display,\n        default: %s,\n        locales: [%s],\n%s\n    }" % (
+               json.dumps(locales[0]), ", ".join(json.dumps(l) for l in locales), ",\n".join(blocks)),
+           "    use i18n::*;"]
+    for i, body in tmp.obs:
+        src.append("    pub fn obs_%d() {\n%s\n    }" % (i, body))
+        crate.obs.append((i, "    decl::obs_%d();" % i))
+        crate.expect[i] = dict(tmp.expect[i], front_end="declare_locales")
+    src.append("}")
+    crate.next_id = tmp.next_id
+    crate.extra_items += "\n".join(src) + "\n"
+    crate.decl_project = p
+
+
 def hops(project, ns, loc, path, depth=0):
     n = model.lookup(project["data"].get((ns, loc)) or [], path)
     if n is None or n["k"] != "tmpl" or depth > 8:
@@ -457,6 +513,7 @@ def run(tier, seed, replay=None):
         p = b.build(erng.randint(5, 8), erng.randint(6, 10))
         c = e2e.ProbeCrate("c06_%d" % i, p)
         c01.add_e2e_observations(c, p, workload.plural_table_for([p]), erng, 1, flavours=("td_string", "td"))
+        add_declare_module(c, erng)
         crates.append(c)
     root = e2e.write_workspace("c06", crates, seed=seed)
     status, secs, _ = e2e.build_workspace(root, crates)
